@@ -179,7 +179,7 @@ def correspondence(res, layouts, rng, reps, label):
         ids = list(L._basis_vector_ids.values)
         # tuple loop: positions (ids resolved by the harness), incl. repeated ones
         for _ in range(reps * 3):
-            k = int(rng.integers(0, min(n, 6) + 1))
+            k = int(rng.integers(0, min(n, 8) + 1))
             if rng.random() < 0.2 and n >= 1:
                 pos = [int(x) for x in rng.integers(0, n, size=k + 1)]
             else:
@@ -211,6 +211,10 @@ def _cases(tier, rng):
         ids, first = gen.random_ids(rng, n)
         order = gen.random_order(rng, n) if n <= 4 else None
         cases.append(dict(sig=gen.random_signature(rng, n), ids=ids, first=first, order=order))
+    # larger dimensions: id tuples whose members are far apart in the id list
+    for n in ((6, 7) if tier == 'quick' else (6, 6, 7, 7, 8, 9)):
+        ids, first = gen.random_ids(rng, n, str(rng.choice(['default', 'shuffled', 'first0', 'noncontig'])))
+        cases.append(dict(sig=gen.random_signature(rng, n), ids=ids, first=first, order=None))
     return cases
 
 
@@ -241,7 +245,7 @@ def run_job(job, tier, seed):
             extra.append((name, real.predefined(name)))
         for tag, L in extra:
             common.gcall(res, check_layout, L, rng, tag, kmax)
-        common.gcall(res, correspondence, [(t, L) for t, L in layouts if L.gaDims <= 64], rng, 3 if tier == 'quick' else 10, 'nojit')
+        common.gcall(res, correspondence, [(t, L) for t, L in layouts if L.gaDims <= 256], rng, 3 if tier == 'quick' else 10, 'nojit')
     elif job == 'index_jit':
         cases = _cases('quick', rng)[:8]
         layouts = common.build_layouts(res, cases, prefix='J')
